@@ -239,3 +239,14 @@ func EvalTimeout(ctx context.Context, src string, d time.Duration) Outcome {
 		return Outcome{Kind: "hang", Stack: string(buf)}
 	}
 }
+
+// EvalScope evaluates src with the given values bound to names, guarded.
+func EvalScope(src string, vars map[string]rel.Value) Outcome {
+	return Guard(func() (rel.Value, error) {
+		scope := rel.EmptyScope
+		for n, v := range vars {
+			scope = scope.With(n, v)
+		}
+		return syntax.EvalWithScope(Ctx(), syntax.NoPath, src, scope)
+	})
+}
